@@ -99,6 +99,42 @@ def index_text(e):
 def axis_accesses(func):
     """[(field, axis, index_text, node)] for indexed/deleted coupled fields"""
     out = []
+    # names that stand for one annotation array: `for name, arr in X._annot.items()`, `for arr in X._annot.values()`,
+    # comprehension generators of the same form, `arr = X._annot[name]`
+    annot_vars = set()
+
+    def _bind_iter(target, it):
+        if isinstance(it, ast.Call) and isinstance(it.func, ast.Attribute) and isinstance(it.func.value, ast.Attribute) \
+                and it.func.value.attr == "_annot":
+            if it.func.attr == "items" and isinstance(target, ast.Tuple) and len(target.elts) == 2 and isinstance(target.elts[1], ast.Name):
+                annot_vars.add(target.elts[1].id)
+            elif it.func.attr == "values" and isinstance(target, ast.Name):
+                annot_vars.add(target.id)
+
+    for n in walk_local(func):
+        if isinstance(n, ast.For):
+            _bind_iter(n.target, n.iter)
+        elif isinstance(n, ast.comprehension):
+            _bind_iter(n.target, n.iter)
+        elif isinstance(n, ast.Assign) and len(n.targets) == 1 and isinstance(n.targets[0], ast.Name) \
+                and isinstance(n.value, ast.Subscript) and isinstance(n.value.value, ast.Attribute) and n.value.value.attr == "_annot":
+            annot_vars.add(n.targets[0].id)
+    for n in walk_local(func):
+        if isinstance(n, ast.Subscript) and isinstance(n.value, ast.Name) and n.value.id in annot_vars:
+            out.append(("annot", 0, index_text(n.slice), n, "index"))
+        if isinstance(n, ast.Call) and isinstance(n.func, ast.Attribute) and n.func.attr == "__getitem__" \
+                and isinstance(n.func.value, ast.Name) and n.func.value.id in annot_vars and n.args:
+            out.append(("annot", 0, index_text(n.args[0]), n, "index"))
+        if isinstance(n, ast.Call) and (call_name(n) or "").endswith("delete") and len(n.args) >= 2 \
+                and isinstance(n.args[0], ast.Name) and n.args[0].id in annot_vars:
+            axis = None
+            for k in n.keywords:
+                if k.arg == "axis":
+                    try:
+                        axis = ast.literal_eval(k.value)
+                    except Exception:
+                        axis = "?"
+            out.append(("annot", axis, index_text(n.args[1]), n, "delete"))
     for n in walk_local(func):
         # np.delete(X.F, I, axis=A)
         if isinstance(n, ast.Call) and (call_name(n) or "").endswith("delete") and len(n.args) >= 2:
